@@ -4,8 +4,8 @@ from props import _reader
 
 PID = "C18"
 PROPS_FILE = "Props/C18.v"
-PREFIX = "C18"
-KNOWN = {}
+PREFIX = "C18s"
+KNOWN = {1: "C18-notalive-not-bounded"}
 RULE = ("a case is a reader QoS (KEEP_LAST depth 1-4 or KEEP_ALL, resource limits equal to / just above the depth, "
         "both destination orders) plus a sequence of 1-40 operations (add_reader_change of all change kinds from 1-3 "
         "writers over 1-4 instances, read/take/next_instance with random masks, match/unmatch) run on a fresh real "
